@@ -8,6 +8,7 @@
          l1 = 0 radials, S_00 constant, 16π²·S_00 = 8π√π)
    C01e  the strided (lam, mu) loops of type 1 visit exactly the entries of the type-1 table that makeW writes
    C01f  hence the strided double loop of type 1 equals the full double sum over all table entries (lossless)
+   C01g  three-dimensional binomial shift over exactly the index triples the contractions visit
    The contraction algebra shared with C07/C09 is in Props/C07.lean and Props/C09.lean. -/
 import Ecpint.Props.C01a
 import Ecpint.Props.C01b
@@ -15,3 +16,4 @@ import Ecpint.Props.C01c
 import Ecpint.Props.C01d
 import Ecpint.Props.C01e
 import Ecpint.Props.C01f
+import Ecpint.Props.C01g
